@@ -167,7 +167,28 @@ func genElements(r *hx.Rng, kind string, n int) (verts [][3]float64, idx []int, 
 		}
 		iv, lay = layout(r, nv)
 		idx = make([]int, 0, 3*n)
+		// triangles that name a vertex twice (a, a, b) are primitives like any other: element ids stay mesh
+		// primitive indices.  A per-set stream: some such triangles, mostly early ones so that proper
+		// triangles follow them
+		twice := map[int]bool{}
+		if n >= 2 && r.Chance(1, 5) {
+			for k := r.Range(1, 3); k > 0; k-- {
+				if r.Chance(2, 3) {
+					twice[r.Intn((n+1)/2)] = true
+				} else {
+					twice[r.Intn(n)] = true
+				}
+			}
+		}
 		for t := 0; t < n; t++ {
+			if twice[t] {
+				a, b := r.Intn(nv), r.Intn(nv)
+				if nv == 3*n {
+					a, b = 3*t, 3*t+1+r.Intn(2)
+				}
+				idx = append(idx, hx.Pick(r, [][]int{{a, a, b}, {a, b, a}, {b, a, a}, {a, a, a}})...)
+				continue
+			}
 			if nv == 3*n {
 				idx = append(idx, 3*t, 3*t+1, 3*t+2)
 				continue
@@ -186,7 +207,7 @@ func genElements(r *hx.Rng, kind string, n int) (verts [][3]float64, idx []int, 
 		// zero-area triangles have no plane (NaN distances): keep them a rare, counted stream by
 		// moving the third corner off the line through the other two
 		for t := 0; t < n; t++ {
-			if zeroArea(iv[idx[3*t]], iv[idx[3*t+1]], iv[idx[3*t+2]]) && !degenerate {
+			if zeroArea(iv[idx[3*t]], iv[idx[3*t+1]], iv[idx[3*t+2]]) && !degenerate && !twice[t] {
 				if iv[idx[3*t]] == iv[idx[3*t+1]] {
 					w := iv[idx[3*t]]
 					w[r.Intn(3)] += hx.Pick(r, []int{-2, -1, 1, 2})
@@ -349,16 +370,89 @@ func rayDir(r *hx.Rng) ([3]float64, string) {
 	return d, via
 }
 
-func genQueries(r *hx.Rng, d setDesc, iv []ivec, n int, per int) []qDesc {
+// onGrid: every coordinate on the quarter grid and of moderate size.
+func onGrid(p [3]float64) bool {
+	for k := 0; k < 3; k++ {
+		if _, ok := z4(p[k]); !ok || math.Abs(p[k]) > 1e6 {
+			return false
+		}
+	}
+	return true
+}
+
+// cellPoint: a point placed relative to one cell of the tree the implementation builds: its corners, face
+// and edge midpoints, quarter points (off the Min-Max diagonal), just outside a face.
+func cellPoint(r *hx.Rng, c fbox) ([3]float64, bool) {
+	var p [3]float64
+	for k := 0; k < 3; k++ {
+		w := c.hi[k] - c.lo[k]
+		switch r.Intn(8) {
+		case 0:
+			p[k] = c.lo[k]
+		case 1:
+			p[k] = c.hi[k]
+		case 2:
+			p[k] = c.lo[k] + w/2
+		case 3, 4:
+			p[k] = c.lo[k] + w/4
+		case 5, 6:
+			p[k] = c.lo[k] + 3*w/4
+		default:
+			p[k] = hx.Pick(r, []float64{c.lo[k] - 0.25, c.hi[k] + 0.25, c.lo[k] - w/2, c.hi[k] + w/2})
+		}
+	}
+	return p, onGrid(p)
+}
+
+func dist3(a, b [3]float64) float64 {
+	return math.Sqrt((a[0]-b[0])*(a[0]-b[0]) + (a[1]-b[1])*(a[1]-b[1]) + (a[2]-b[2])*(a[2]-b[2]))
+}
+
+func genQueries(r *hx.Rng, d setDesc, iv []ivec, n int, per int, cells []fbox) []qDesc {
 	h := hullOf(iv)
 	span := 1 + (h.hi[0] - h.lo[0]) + (h.hi[1] - h.lo[1]) + (h.hi[2] - h.lo[2])
 	var qs []qDesc
+	// the query position: from the element layout or (one in three) from a cell of the built tree,
+	// preferring cells that hold at least two elements
+	pickCell := func() (fbox, bool) {
+		if len(cells) == 0 {
+			return fbox{}, false
+		}
+		c := cells[r.Intn(len(cells))]
+		for tries := 0; tries < 4 && c.n < 2; tries++ {
+			c = cells[r.Intn(len(cells))]
+		}
+		return c, true
+	}
+	basePoint := queryPoint
+	queryPoint := func(r *hx.Rng, iv []ivec, h hull) [3]float64 {
+		if r.Chance(1, 3) {
+			if c, ok := pickCell(); ok {
+				if p, ok := cellPoint(r, c); ok {
+					return p
+				}
+			}
+		}
+		return basePoint(r, iv, h)
+	}
 	for k := 0; k < per; k++ {
 		qs = append(qs, qDesc{T: "contain", P: queryPoint(r, iv, h)})
 	}
 	for k := 0; k < per; k++ {
 		p := queryPoint(r, iv, h)
 		var dd float64
+		if c, ok := pickCell(); ok && r.Chance(1, 4) {
+			// a radius that just reaches the cell's Min and Max corners from a point off their diagonal
+			// (the other six corners can be nearer or farther than both)
+			if cp, ok := cellPoint(r, c); ok {
+				reach := math.Max(dist3(cp, c.lo), dist3(cp, c.hi))
+				dd = math.Ceil(reach*4)/4 + hx.Pick(r, []float64{0, 0, 0, 0.25, -0.25, -0.5})
+				if dd >= 0 && dd < 1e6 {
+					qs = append(qs, qDesc{T: "within", P: cp, D: dd})
+					continue
+				}
+			}
+		}
 		switch r.Intn(6) {
 		case 0:
 			dd = 0 // only boxes that contain p
@@ -453,7 +547,10 @@ func genSet(r *hx.Rng, big int) setDesc {
 	} else if n > 60 {
 		per = 2
 	}
-	d.Queries = genQueries(r, d, iv, n, per)
+	if d.Kind != "box" && r.Chance(1, 6) {
+		d.Attr = hx.Pick(r, []string{"Rest", "Normal", "Custom/1"}) // the tree over another attribute than Position
+	}
+	d.Queries = genQueries(r, d, iv, n, per, cellsOf(d))
 	return d
 }
 
@@ -540,6 +637,26 @@ func fixedSets() []setDesc {
 				qDesc{T: "closest", P: [3]float64{4, -2, 0}}, qDesc{T: "closest", P: [3]float64{-1.5, 3.5, 0}},
 				qDesc{T: "closest", P: [3]float64{3, 0, 0}}, qDesc{T: "closest", P: [3]float64{0, -1, 0}})})
 	}
+	// mesh-level entry points: a triangle that names a vertex twice, followed by proper triangles (element
+	// ids must stay the mesh's primitive indices), Position and another attribute
+	twV := pts([3]float64{0, 0, 0}, [3]float64{2, 0, 0}, [3]float64{0, 2, 0}, [3]float64{6, 6, 0}, [3]float64{8, 6, 0}, [3]float64{6, 8, 0},
+		[3]float64{-6, -6, 2}, [3]float64{-8, -6, 2}, [3]float64{-6, -8, 2})
+	for _, depth := range []int{0, 1, 2, -1} {
+		for _, atr := range []string{"", "Rest"} {
+			out = append(out, setDesc{Kind: "tri", Verts: twV, Idx: []int{0, 0, 1, 3, 4, 5, 2, 1, 2, 6, 7, 8, 0, 1, 2}, Depth: depth, Attr: atr,
+				Queries: stdQueries([3]float64{7, 7, 0}, [3]float64{-7, -7, 2}, [3]float64{0.5, 0.5, 0}, [3]float64{1, 0, 0})})
+		}
+	}
+	out = append(out, setDesc{Kind: "point", Verts: line4, Depth: 1, Attr: "Rest", Queries: stdQueries([3]float64{0.75, 0, 0}, [3]float64{2.5, 1, 1})})
+	// four points on a unit square in one cell; radii that reach the cell's Min and Max corners from a point
+	// off their diagonal but not the corner (0,1,0)
+	sq := pts([3]float64{0, 0, 0}, [3]float64{1, 0, 0}, [3]float64{0, 1, 0}, [3]float64{1, 1, 0})
+	for _, depth := range []int{0, 1, -1} {
+		out = append(out, setDesc{Kind: "point", Verts: sq, Depth: depth, Queries: []qDesc{
+			{T: "within", P: [3]float64{0.75, 0.25, 0}, D: 1}, {T: "within", P: [3]float64{0.75, 0.25, 0}, D: 0.75},
+			{T: "within", P: [3]float64{0.25, 0.75, 0}, D: 1}, {T: "within", P: [3]float64{0.5, 0.5, 0.5}, D: 1},
+			{T: "within", P: [3]float64{0.75, 0.25, 0.25}, D: 0.25}, {T: "within", P: [3]float64{0.75, 0.25, 0}, D: 1.25}}})
+	}
 	// a strip with shared vertices
 	out = append(out, setDesc{Kind: "line", Verts: pts([3]float64{0, 0, 0}, [3]float64{4, 0, 0}, [3]float64{4, 4, 0}, [3]float64{0, 4, 4}, [3]float64{0, 0, 4}),
 		Idx: []int{0, 1, 2, 3, 4, 0, 2}, Depth: 2,
@@ -578,13 +695,78 @@ func genBvh(r *hx.Rng, thorough bool) bvhDesc {
 			iv = append(iv, randVec(r, 12))
 		}
 	}
+	// members: triangles only (NewBVHFromMesh, or NewBVHTree called directly), spheres only, mixed
+	mode := r.Intn(10)
+	if mode >= 5 && mode <= 6 {
+		iv, nt = nil, 0
+	}
 	for i, v := range iv {
 		d.Verts = append(d.Verts, fv(v))
 		d.Idx = append(d.Idx, i)
 	}
+	type sphereAim struct {
+		c [3]float64
+		r float64
+	}
+	var aims []sphereAim
+	if mode >= 5 {
+		ns := r.Range(1, max/2)
+		if r.Chance(1, 4) {
+			ns = r.Range(1, 3)
+		}
+		cs, _ := layout(r, ns)
+		animated := r.Chance(1, 2)
+		if animated || r.Chance(1, 6) {
+			w := hx.Pick(r, [][2]float64{{0, 1}, {0, 0.5}, {2, 6}, {-1, 1}})
+			d.T0, d.T1 = w[0], w[1]
+			d.Time = hx.Pick(r, []float64{w[0], w[1], (w[0] + w[1]) / 2, w[0] + (w[1]-w[0])/4, w[0] + 3*(w[1]-w[0])/4})
+		}
+		for _, c := range cs {
+			sd := sphDesc{C0: fv(c), C1: fv(c), R: hx.Pick(r, []float64{0.5, 1, 1, 1.5, 2, 3, 5})}
+			if animated && r.Chance(2, 3) {
+				m := randVec(r, 6)
+				sd.C1 = fv(ivec{c[0] + m[0], c[1] + m[1], c[2] + m[2]})
+				iv = append(iv, ivec{c[0] + m[0], c[1] + m[1], c[2] + m[2]})
+			}
+			d.Spheres = append(d.Spheres, sd)
+			iv = append(iv, c)
+			f := 0.0
+			if d.T1 != d.T0 {
+				f = (d.Time - d.T0) / (d.T1 - d.T0)
+			}
+			aims = append(aims, sphereAim{[3]float64{sd.C0[0] + (sd.C1[0]-sd.C0[0])*f, sd.C0[1] + (sd.C1[1]-sd.C0[1])*f, sd.C0[2] + (sd.C1[2]-sd.C0[2])*f}, sd.R})
+		}
+	}
+	if mode >= 3 && r.Chance(1, 2) { // a sub-range [start, end) of a longer caller-owned slice
+		d.Pad = [2]int{r.Range(0, 2), r.Range(0, 2)}
+	}
+	d.Direct = mode >= 3
 	h := hullOf(iv)
 	d.O = queryPoint(r, iv, h)
-	if r.Chance(2, 3) {
+	if len(aims) > 0 && (nt == 0 || r.Bool()) {
+		// aim at a sphere: its centre, inside, on its silhouette (grazing), just outside
+		a := aims[r.Intn(len(aims))]
+		tx := a.c
+		for k := range tx {
+			tx[k] += a.r * hx.Pick(r, []float64{0, 0, 0.5, -0.5, 0.25, 1, -1, 1.25})
+		}
+		if r.Chance(1, 3) { // straight along an axis
+			d.O = tx
+			d.O[r.Intn(3)] += float64(r.Range(5, 40)) * hx.Pick(r, []float64{1, -1})
+		} else if r.Chance(1, 6) { // from inside the sphere
+			d.O = a.c
+			d.O[r.Intn(3)] += a.r / 2
+		}
+		for k := range d.O { // the origin stays on the quarter grid
+			d.O[k] = math.Round(d.O[k]*4) / 4
+		}
+		d.Dir = [3]float64{tx[0] - d.O[0], tx[1] - d.O[1], tx[2] - d.O[2]}
+		for k := range d.Dir {
+			if d.Dir[k] == 0 && r.Bool() {
+				d.Dir[k] = negZero
+			}
+		}
+	} else if nt > 0 && r.Chance(2, 3) {
 		// aim at a triangle's interior (quarter-grid target)
 		t := r.Intn(nt)
 		a, b, c := iv[3*t], iv[3*t+1], iv[3*t+2]
@@ -647,6 +829,26 @@ func fixedBvh() []bvhDesc {
 	out = append(out, bvhDesc{Verts: verts, Idx: idx, O: [3]float64{0, 0, -2}, Dir: [3]float64{1, 1, 4}, Lo: 0, Hi: 1e6, Seed: 4})
 	out = append(out, bvhDesc{Verts: verts, Idx: idx, O: [3]float64{30, 0, -2}, Dir: [3]float64{0, 0, 1}, Lo: 0, Hi: 1e6, Seed: 5})
 	out = append(out, bvhDesc{Verts: verts[:3], Idx: idx[:3], O: [3]float64{0, 0, -2}, Dir: [3]float64{0, 0, 1}, Lo: 0, Hi: 1e6, Seed: 5})
+	// spheres (through NewBVHTree): a ray through the outer shell of the first sphere (x = -1.5, radius 2), a
+	// moving sphere met at the start / middle / end of the time window, spheres and triangles mixed, the
+	// range [start, end) inside a longer slice
+	sp := []sphDesc{{C0: [3]float64{0, 0, 10}, C1: [3]float64{0, 0, 10}, R: 2}, {C0: [3]float64{20, 0, 10}, C1: [3]float64{20, 0, 10}, R: 2},
+		{C0: [3]float64{0, 0, 30}, C1: [3]float64{0, 0, 30}, R: 5}}
+	mv := []sphDesc{{C0: [3]float64{0, 0, 10}, C1: [3]float64{8, 0, 10}, R: 1}, {C0: [3]float64{0, 6, 14}, C1: [3]float64{0, -6, 14}, R: 1.5},
+		{C0: [3]float64{4, 0, 20}, C1: [3]float64{4, 0, 20}, R: 3}}
+	for seed := int64(1); seed <= 3; seed++ {
+		out = append(out, bvhDesc{Spheres: sp, O: [3]float64{-1.5, 0, 0}, Dir: [3]float64{0, 0, 1}, Hi: 1e6, Seed: seed})
+		out = append(out, bvhDesc{Spheres: sp, O: [3]float64{0, 0, 0}, Dir: [3]float64{0, 0, 1}, Hi: 1e6, Seed: seed, Pad: [2]int{1, 2}})
+		out = append(out, bvhDesc{Spheres: sp[:1], O: [3]float64{0, 1.75, 0}, Dir: [3]float64{0, 0, 1}, Hi: 1e6, Seed: seed})
+		out = append(out, bvhDesc{Spheres: sp, O: [3]float64{0, 0, 10}, Dir: [3]float64{1, 0, 0}, Hi: 1e6, Seed: seed}) // from inside
+		for _, tm := range []float64{0, 0.5, 1} {
+			out = append(out, bvhDesc{Spheres: mv, T0: 0, T1: 1, Time: tm, O: [3]float64{8 * tm, 0, 0}, Dir: [3]float64{0, 0, 1}, Hi: 1e6, Seed: seed})
+			out = append(out, bvhDesc{Spheres: mv, T0: 0, T1: 1, Time: tm, O: [3]float64{0, 6 - 12*tm, 0}, Dir: [3]float64{0, 0, 1}, Hi: 1e6, Seed: seed})
+		}
+		out = append(out, bvhDesc{Verts: verts, Idx: idx, Spheres: sp, O: [3]float64{0, 0, -2}, Dir: [3]float64{0, 0, 1}, Hi: 1e6, Seed: seed, Pad: [2]int{2, 1}})
+		out = append(out, bvhDesc{Verts: verts, Idx: idx, Spheres: sp, O: [3]float64{0, 0, 50}, Dir: [3]float64{0, 0, -1}, Hi: 1e6, Seed: seed})
+		out = append(out, bvhDesc{Verts: verts, Idx: idx, Direct: true, Pad: [2]int{1, 1}, O: [3]float64{0, 0, -2}, Dir: [3]float64{0, 0, 1}, Hi: 1e6, Seed: seed})
+	}
 	// the same rays with negative-zero components: written out, and as Flip() / Scale(-1) of the opposite
 	for seed := int64(1); seed <= 3; seed++ {
 		out = append(out, bvhDesc{Verts: verts, Idx: idx, O: [3]float64{0, 0, -2}, Dir: [3]float64{negZero, negZero, 1}, Lo: 0, Hi: 1e6, Seed: seed})
